@@ -141,6 +141,7 @@ func runC19(c *Ctx) {
 		c.undecided("R1", "instance-floor", "", fmt.Sprintf("%d returns inside the alternatives loop, 7 confirmed by hand", nIn))
 	}
 	c19R4(c, matcher, patterns, loop)
+	c19EveryCaseTried(c)
 	c19R5(c)
 	c.shared("R6", "C15/R6", "a literal pattern matches when subject == literal: the matcher's equality verdict excludes unset operands like the == operator does", func(o Obligation) bool { return !strings.Contains(o.Key, "getArrayPrototype") }, func(s *Ctx) { equalityAgreement(s, "R6") })
 
@@ -658,4 +659,36 @@ func tokenTagNames(p *Program) []string {
 		out = append(out, n)
 	}
 	return out
+}
+
+// every case is handed to the matcher
+func c19EveryCaseTried(c *Ctx) {
+	p := c.P
+	c.note("R2 every-case-is-tried: in the match arm of evalExpr the loop over the cases cannot go on to the next case without having called the pattern matcher for the current one (no pre-filter decides on the evaluator's side that a case cannot match).")
+	ee := p.LangFunc("(*Evaluator).evalExpr")
+	if ee == nil {
+		c.undecided("R2", "evalExpr", "", "anchor not found")
+		return
+	}
+	n := 0
+	for _, fn := range p.privateCluster(ee) {
+		for _, call := range callsIn(fn) {
+			if !staticCalleeIs(call, "(*lang.Evaluator).evalCaseMatch") || fn == p.LangFunc("(*Evaluator).evalCaseMatch") {
+				continue
+			}
+			for _, l := range rangeLoops(fn, func(v ssa.Value) bool {
+				sf, ok := loadedField(v)
+				return ok && sf.Is("ExprMatch", "Cases")
+			}) {
+				if !l.Body.Dominates(call.Block()) {
+					continue
+				}
+				n++
+				c.check(!canSkip(l.Body, call.Block(), l.Header), "R2", fmt.Sprintf("every-case-is-tried #%d", n), p.InstrPos(call), "the matcher is consulted for every case until one matches", "the loop over the cases can move on to the next case without calling the pattern matcher for the current one: a case is skipped on some other criterion, so the first case whose patterns match is not necessarily the one taken")
+			}
+		}
+	}
+	if n == 0 {
+		c.undecided("R2", "every-case-is-tried", p.Pos(ee.Pos()), "no call of the pattern matcher inside a loop over ExprMatch.Cases found")
+	}
 }
